@@ -30,6 +30,8 @@ def tokens(e):
         return [t] + tokens(e[1]) + tokens(e[2])
     if t in ("wind", "callcc"):
         return [t, str(e[1])] + tokens(e[2])
+    if t == "windp":
+        return [t, str(e[1]), str(e[2])] + tokens(e[3])
     if t == "throw":
         return [t, str(e[1]), str(e[2])] + tokens(e[3])
     if t in ("param", "handler"):
@@ -55,12 +57,22 @@ def scheme(e):
         return "(let* ((x %s) (y %s)) (+ x y))" % (scheme(e[1]), scheme(e[2]))
     if t == "wind":
         return "(dynamic-wind (lambda () (push! 1 %d)) (lambda () %s) (lambda () (push! 2 %d)))" % (e[1], scheme(e[2]), e[1])
+    if t == "windp":
+        i, p = e[1], e[2]
+        return ("(dynamic-wind (lambda () (push! 1 %d) (push! %d (p%d))) (lambda () %s) (lambda () (push! 2 %d) (push! %d (p%d))))"
+                % (i, 10 + p, p, scheme(e[3]), i, 10 + p, p))
     if t == "callcc":
         return "(call-with-current-continuation (lambda (c) (set! k%d c) %s))" % (e[1], scheme(e[2]))
     if t == "throw":
         k, lim = e[1], e[2]
         return "(let ((v %s)) (if (and k%d (< c%d %d)) (begin (set! c%d (+ c%d 1)) (k%d v)) v))" % (scheme(e[3]), k, k, lim, k, k, k)
     if t == "param":
+        inner = e[3]
+        if (inner[0] == "param" and inner[1] != e[1] and e[2][0] == "const" and inner[2][0] == "const"
+                and (e[2][1] + inner[2][1]) % 2 == 0):
+            # two nested constant bindings of different parameters: printed (for half of them) as ONE parameterize with
+            # two bindings — one extent with two conses instead of two extents; extents are silent, so same trace
+            return "(parameterize ((p%d %s) (p%d %s)) %s)" % (e[1], scheme(e[2]), inner[1], scheme(inner[2]), scheme(inner[3]))
         return "(parameterize ((p%d %s)) %s)" % (e[1], scheme(e[2]), scheme(e[3]))
     if t == "handler":
         return "(with-exception-handler (lambda (c) (push! 5 %d) (push! 6 (payload c)) %s) (lambda () %s))" % (e[1], scheme(e[2]), scheme(e[3]))
@@ -73,8 +85,18 @@ def scheme(e):
     if t == "raisec":
         return "(raise-continuable %s)" % scheme(e[1])
     if t == "guard":
-        test = "#t" if e[1] is None else "(eqv? c %d)" % e[1]
-        return "(guard (c (%s (push! 7 %d) (push! 6 (payload c)) %s)) %s)" % (test, e[2], scheme(e[3]), scheme(e[4]))
+        # same meaning, different arms of guard-aux (lib/scheme/misc-macros.scm:44-63), chosen by the tag
+        style = e[2] % 4
+        body = "(push! 7 %d) (push! 6 (payload c)) %s" % (e[2], scheme(e[3]))
+        if e[1] is None:
+            clause = ["(#t %s)", "(else %s)", "((eqv? c 12345) 0) (else %s)", "(#t => (lambda (x) %s))"][style] % body
+        else:
+            test = "(eqv? c %d)" % e[1]
+            clause = ["(%s %s)" % (test, body),
+                      "((eqv? c 12345) 0) (%s %s)" % (test, body),
+                      "(%s => (lambda (x) %s))" % (test, body),
+                      "((eqv? c 12345)) (%s %s)" % (test, body)][style]
+        return "(guard (c %s) %s)" % (clause, scheme(e[4]))
     raise ValueError(t)
 
 
@@ -139,6 +161,9 @@ def relabel(e, fr=None):
     if t == "wind":
         i = fr.wind()
         return ("wind", i, relabel(e[2], fr))
+    if t == "windp":
+        i = fr.wind()
+        return ("windp", i, e[2], relabel(e[3], fr))
     if t == "handler":
         g = fr.tag()
         return ("handler", g, relabel(e[2], fr), relabel(e[3], fr))
@@ -201,7 +226,7 @@ WIND_CORE = dict(leaves=[("mark", 0)],
                  unary=[lambda a: ("wind", 0, a), lambda a: ("callcc", 1, a), lambda a: ("throw", 1, 2, a)],
                  binary=[lambda a, b: ("seq", a, b)])
 DYN_CORE = dict(leaves=[("pref", 0), ("const", 1)],
-                unary=[lambda a: ("callcc", 1, a), lambda a: ("throw", 1, 1, a), lambda a: ("raisec", a), lambda a: ("wind", 0, a)],
+                unary=[lambda a: ("callcc", 1, a), lambda a: ("throw", 1, 1, a), lambda a: ("raisec", a), lambda a: ("windp", 0, 0, a)],
                 binary=[lambda a, b: ("seq", a, b), lambda a, b: ("param", 0, a, b), lambda a, b: ("handler", 0, a, b),
                         lambda a, b: ("guard", 2, 0, a, b)])
 
@@ -223,6 +248,8 @@ def gen_random(rng, n, fr, wd=0):
         return (op, gen_random(rng, i, fr, wd), gen_random(rng, max(1, n - 1 - i), fr, wd))
     if op == "wind":
         i = fr.wind()
+        if rng.random() < 0.3:
+            return ("windp", i, rng.choice([0, 0, 1]), gen_random(rng, n - 1, fr, wd + 1))
         return ("wind", i, gen_random(rng, n - 1, fr, wd + 1))
     if op == "callcc":
         return ("callcc", rng.choice([1, 2, 3]), gen_random(rng, n - 1, fr, wd))
@@ -264,6 +291,13 @@ def templates(rng):
         # parameterize + re-entry: the parameter must have the extent's value after each re-entry
         out.append(("seq", ("param", 0, ("const", 7), w(("seq", ("callcc", 1, ("pref", 0)), ("pref", 0)))),
                     ("seq", ("pref", 0), ("throw", 1, 2, ("pref", 0)))))
+        # before/after thunks that read a parameter: they must see the value at the dynamic-wind CALL (7), also when the
+        # extent is re-entered from outside the parameterize (where p0 is 0) and left again by the escape
+        out.append(("seq", ("param", 0, ("const", 7), ("windp", fr.wind(), 0, ("param", 0, ("const", 8), ("seq", ("callcc", 1, ("pref", 0)), leaf())))),
+                    ("seq", ("pref", 0), ("throw", 1, 2, ("pref", 0)))))
+        # two parameters bound by ONE parameterize form (printed so by scheme()), re-entered after exit
+        out.append(("seq", ("param", 0, ("const", 7), ("param", 1, ("const", 3), w(("seq", ("callcc", 1, ("pref", 1)), ("pref", 0))))),
+                    ("seq", ("pref", 1), ("throw", 1, 2, ("pref", 0)))))
         # handler inside winds, continuable raise, handler reads a parameter (must see the raise point's value)
         out.append(("handler", fr.tag(), ("seq", ("pref", 0), ("const", 4)),
                     ("param", 0, ("const", 3), w(("show", ("add", ("const", 10), ("raisec", ("const", 1))))))))
@@ -592,7 +626,7 @@ def run_scripts(ctx, exe, d, bodies, label):
     bad = []
     for (b, s, evs), i in zip(keep, io):
         hs = heads(b)
-        nontriv = bool(hs & {"throw", "raise", "raisec"}) and bool(hs & {"wind", "param", "handler", "guard"})
+        nontriv = bool(hs & {"throw", "raise", "raisec"}) and bool(hs & {"wind", "windp", "param", "handler", "guard"})
         ctx.count(1, key=tuple(tokens(s)), nontrivial=nontriv)
         ctx.cov["traces_validated_against_impl"] += 1
         if i is None or parse_impl(i) != evs:
@@ -699,6 +733,9 @@ def parse_tokens(t):
     if h == "throw":
         a, r = parse_tokens(t[3:])
         return (h, int(t[1]), int(t[2]), a), r
+    if h == "windp":
+        a, r = parse_tokens(t[3:])
+        return (h, int(t[1]), int(t[2]), a), r
     if h in ("param", "handler"):
         a, r = parse_tokens(t[2:])
         b, r = parse_tokens(r)
@@ -787,8 +824,11 @@ def replay(ctx, data):
         travel_cases(ctx, exe, d)
     elif sig.startswith("c-callback-escape"):
         callback_escapes(ctx, d, exe)
+    elif sig.startswith("stack-copy"):
+        stack_cases(ctx, exe, d)
     else:
-        from gen import c06_travel
+        from gen import c06_travel, c06_shapes
         c06_travel.regen(ctx)
+        c06_shapes.check(ctx)
         ctx.coq_obligations("Properties_C06")
     return core.finish(ctx)
